@@ -13,6 +13,7 @@ Ds == DsOfSmall(gen)
 Legend == <<"First", "Second one">>
 Cfg == [agg |-> "mean", q |-> Zero, bt |-> "above", t |-> R(2), u |-> R(2)]
 Ths == <<R(0), R(2), R(3)>>
+ThsGiven == <<R(3), R(0), R(2)>>          \* -x threshold: the rows come in the order the thresholds are given, not sorted
 DescJ(d) == IF d.kind = "date" THEN [kind |-> "date", y |-> d.y, m |-> d.m, d |-> d.d, H |-> d.H, unixtime |-> d.unixtime]
             ELSE IF d.kind = "location" THEN [kind |-> "location", id |-> d.id, lat |-> d.lat, lon |-> d.lon, elev |-> d.elev]
             ELSE IF d.axis = "threshold" THEN [kind |-> "threshold", center |-> J(d.center)] ELSE [kind |-> "number", value |-> d.value]
@@ -21,8 +22,8 @@ Usable(x) == ~EmptySelection(DsOfSmall(x), x.opt)
 Emit ==
   LET X == Context(Ds, gen.opt) IN
   PrintT(ToJson([inputs |-> [j \in DOMAIN Ds.inputs |-> InputJson(Ds.inputs[j])], hasClim |-> FALSE, clim |-> InputJson(Ds.clim), climType |-> "subtract",
-                 opts |-> OptJson(gen.opt), metric |-> m, axis |-> axis, legend |-> Legend, bt |-> "above", thresholds |-> <<0, 2, 3>>,
-                 table |-> IF axis = "threshold" THEN TableJ(ThresholdTable(X, m, "above", Ths, Legend)) ELSE TableJ(ScoreTable(Ds, X, m, axis, Cfg, FALSE, Legend)),
+                 opts |-> OptJson(gen.opt), metric |-> m, axis |-> axis, legend |-> Legend, bt |-> "above", thresholds |-> <<3, 0, 2>>,
+                 table |-> IF axis = "threshold" THEN TableJ(ThresholdTable(X, m, "above", ThsGiven, Legend)) ELSE TableJ(ScoreTable(Ds, X, m, axis, Cfg, FALSE, Legend)),
                  multi |-> IF axis # "threshold" /\ m \in {"ets", "hit", "n", "mae"}
                            THEN <<[bt |-> "within", r |-> <<0, 2, 3>>, table |-> TableJ(AveragedTable(Ds, X, m, axis, "within", Ths, Legend))],
                                   [bt |-> "above=", r |-> <<0, 2>>, table |-> TableJ(AveragedTable(Ds, X, m, axis, "above=", <<R(0), R(2)>>, Legend))]>>
